@@ -8,6 +8,7 @@ import (
 	"fmt"
 	"io"
 	"log"
+	"math"
 	"math/big"
 	"math/bits"
 	"sort"
@@ -1264,7 +1265,7 @@ func slice(x, lo, hi, step_ Value) (Value, error) {
 	step := 1
 	if step_ != None {
 		var err error
-		step, err = asSaturatedInt32(step_)
+		step, err = asSaturatedInt(step_)
 		if err != nil {
 			return nil, fmt.Errorf("invalid slice step: %s", err)
 		}
@@ -1358,7 +1359,7 @@ func indices(start_, end_ Value, len int) (start, end int, err error) {
 func asIndex(v Value, len int, result *int) error {
 	if v != nil && v != None {
 		var err error
-		*result, err = asSaturatedInt32(v)
+		*result, err = asSaturatedInt(v)
 		if err != nil {
 			return err
 		}
@@ -1369,19 +1370,23 @@ func asIndex(v Value, len int, result *int) error {
 	return nil
 }
 
-// asSaturatedInt32 is like AsInt32 but maps an int beyond the int32
-// range to the nearest int32. It is used for slice indices and strides,
-// which are clamped to the length of the sequence (< 2^31) in any case.
-func asSaturatedInt32(v Value) (int, error) {
-	if i, ok := v.(Int); ok {
-		if _, big := i.get(); big != nil {
-			if big.Sign() < 0 {
-				return -1 << 31, nil
-			}
-			return 1<<31 - 1, nil
-		}
+// asSaturatedInt is like AsInt32 but accepts an int of any size,
+// mapping one whose magnitude exceeds half the range of int to the
+// nearest value within it. It is used for slice indices and strides,
+// which are clamped to the length of the sequence in any case.
+func asSaturatedInt(v Value) (int, error) {
+	i, ok := v.(Int)
+	if !ok {
+		return AsInt32(v) // (reports the type error)
 	}
-	return AsInt32(v)
+	const limit = math.MaxInt / 2 // leaves room for adding a length
+	if x, ok := i.Int64(); ok && -limit <= x && x <= limit {
+		return int(x), nil
+	}
+	if i.Sign() < 0 {
+		return -limit, nil
+	}
+	return limit, nil
 }
 
 // setArgs sets the values of the formal parameters of function fn in
